@@ -54,7 +54,7 @@ def p3(ctx, rep, rule="P3"):
             rep.add(rule, "try_from-cannot-fail:%s" % _field_name(d), ok, b.where(bb),
                     "upper bound %s must be <= %d (%s::try_from(..).unwrap())%s" % (v, lim, m.group(1), "" if ok else "; bound comes from: %s" % _sites(U, b, t["args"][0])))
     rep.floor(rule, "encode_value-sites", n_ev, 20)
-    rep.floor(rule, "try_from-sites", n_tf, 4)
+    rep.floor(rule, "try_from-sites", n_tf, 2)
 
 
 def _first_field_place(b, op, depth=0):
